@@ -11,12 +11,14 @@ RULE = (
     "/ 3 thorough, plus 0+d and 2^29+d) x result form one=True/False x whether the same numbers were first asked under the other "
     "convention. One-bin form: out-of-range gives the integer 1; an empty interval start = end+1 gives a finest-level bin holding the "
     "following base; otherwise the result is a bin whose arithmetic extent contains the interval and is not coarser than allowed; for "
-    "gff with start <= end Feature.bin / calc_bin() agree and a Feature whose coordinates were changed after construction stores the "
-    "bin of its current coordinates. Set form: a set; out-of-range contains 1 and is not shared state (editing it does not change the "
-    "next answer); otherwise it contains every overlapping bin and nothing beyond the +-1 neighbourhood. Part 'pairs' (shards = stored "
-    "start over the sub-grid, 25 / 35 coordinates, gff): every stored interval x every overlapping in-range query interval: the stored "
-    "one-bin is in the query's bin set. Non-trivial = out-of-range coordinate; in-range one-bin: the interval touches a bin boundary or "
-    "the bin is above the finest level; set form: must and may sets differ; every checked pair."
+    "gff with start <= end Feature.bin / calc_bin() agree, a Feature built from the same coordinates given as text or as integer-valued "
+    "floats (start >= 0) has integer coordinates and the same bin, and a Feature whose coordinates were changed after construction "
+    "stores the bin of its current coordinates. Set form: a set; out-of-range contains 1 and is not shared state (editing it does not "
+    "change the next answer); otherwise it contains every overlapping bin and nothing beyond the +-1 neighbourhood. Part 'pairs' "
+    "(shards = stored start over the sub-grid, 25 / 35 coordinates, gff): every stored interval x every overlapping in-range query "
+    "interval: the stored one-bin is in the query's bin set. Non-trivial = out-of-range coordinate; in-range one-bin: the interval "
+    "touches a bin boundary or the bin is above the finest level; set form: must and may sets differ; every checked pair. The call "
+    "without `one` must give the one-bin form (the documented default)."
 )
 ASSUMPTIONS = [
     "exhaustive over the boundary grid only; elsewhere the function depends on coordinates only through "
@@ -162,6 +164,10 @@ def body(ch, ctx):
             B.bins(start, end, fmt=other, one=one)
         if one:
             got = check_one(ctx, start, end, fmt)
+            # "bins(start, end) returns one integer bin": the one-bin form is the default
+            dflt = B.bins(start, end, fmt=fmt)
+            ctx.check(dflt == got and type(dflt) is type(got), "default-form-is-not-the-one-bin-form", dict(fmt=fmt), start=start, end=end,
+                      default=repr(dflt)[:100], one=repr(got)[:100])
             if fmt == "gff" and start <= end:
                 f = Feature(seqid="c", start=start, end=end)
                 ok = f.bin == got and f.calc_bin() == got and type(f.bin) is type(got)
